@@ -176,6 +176,17 @@ def binop(fr, op, l, r, node):
         l, r = I.simp_fin(l), I.simp_fin(r)
         if not is_abs(l) and not is_abs(r):
             return BIN[type(op)](l, r)
+        # a byte string selected by a few input bits, concatenated with symbolic octets: exact when every alternative has the same
+        # length (one finite function per bit); otherwise the statement is analysed per assignment of those bits
+        for a_, b_ in ((l, r), (r, l)):
+            if isinstance(a_, AFin) and all(isinstance(t, (bytes, bytearray)) for t in a_.table) and isinstance(b_, (ABits, bytes, bytearray)) and isinstance(op, ast.Add):
+                if len({len(t) for t in a_.table}) != 1:
+                    raise NeedCases(sorted(a_.atoms))
+                nb = len(a_.table[0])
+                bits = [mkfin(a_.atoms, [(t[i] >> (7 - k)) & 1 for t in a_.table]) for i in range(nb) for k in range(8)]
+                bits = [x if isinstance(x, AFin) else cbit(int(x)) for x in bits]
+                fa = ABits(bits, "bytes")
+                return binop(fr, op, fa, r, node) if a_ is l else binop(fr, op, l, fa, node)
         v = try_lift(BIN[type(op)], l, r)
         if v is TOO_WIDE:
             return fn_int(fr, "arith:" + type(op).__name__, [l, r], 64)
@@ -1843,7 +1854,21 @@ def method(fr, base, name, args, kw, n):
         msb = [x for c in chunks for x in c]
         return AInt(list(reversed(msb)) or [ZERO])
     if base is bytes and name == "fromhex":
-        return bytes.fromhex(*args)
+        if args and isinstance(args[0], AFin):
+            a0 = I.simp_fin(args[0])
+            if isinstance(a0, AFin):
+                bad = [t for t in a0.table if not isinstance(t, str)]
+                if bad:
+                    raise PathRaise("TypeError", "fromhex() argument must be str")
+                try:
+                    return fin_lift(bytes.fromhex, a0)
+                except ValueError as e:
+                    raise PartialRaise("ValueError", f"{e} at {fr.fi.module.relpath}:{n.lineno}")
+            args = [a0] + list(args[1:])
+        try:
+            return bytes.fromhex(*args)
+        except (ValueError, TypeError) as e:
+            raise PathRaise(type(e).__name__, f"{e} at {fr.fi.module.relpath}:{n.lineno}")
     if isinstance(base, (dict, list, tuple, bytes, bytearray, str, int, BitArr, NPArr, set)) or base in (bytes, str, int, dict, list):
         if isinstance(base, bytes) and name in ("hex", "decode") or isinstance(base, str) and name in ("format", "encode", "join", "rjust", "ljust", "upper", "lower", "strip", "split", "startswith", "endswith", "replace", "zfill"):
             if any(is_abs(a) for a in args):
